@@ -7,6 +7,9 @@ struct AssignmentTracker<'a> {
     out: HashSet<&'a str>,
     nested_out: Option<HashSet<String>>,
     assigned: Vec<HashSet<&'a str>>,
+    // blocks that are rendered through `self.name()` somewhere in the template
+    #[cfg(feature = "multi_template")]
+    called_blocks: Vec<&'a str>,
 }
 
 impl<'a> AssignmentTracker<'a> {
@@ -42,6 +45,8 @@ pub fn find_macro_closure<'a>(m: &ast::Macro<'a>) -> HashSet<&'a str> {
         out: HashSet::new(),
         nested_out: None,
         assigned: vec![Default::default()],
+        #[cfg(feature = "multi_template")]
+        called_blocks: Vec::new(),
     };
     tracker_visit_macro(m, &mut state, false);
     state.out
@@ -57,13 +62,67 @@ pub fn find_undeclared(t: &ast::Stmt<'_>, track_nested: bool) -> HashSet<String>
             None
         },
         assigned: vec![Default::default()],
+        #[cfg(feature = "multi_template")]
+        called_blocks: Vec::new(),
     };
     track_walk(t, &mut state);
+    // A block is not only rendered where it is written: `self.name()` renders
+    // it from anywhere, where nothing that the constructs around the block
+    // assigned is visible.  The body of every block that is called that way
+    // is walked once more with no assignments in scope, so that every
+    // variable it can read from the context is reported.
+    #[cfg(feature = "multi_template")]
+    {
+        let mut done = HashSet::new();
+        while let Some(name) = state.called_blocks.pop() {
+            if !done.insert(name) {
+                continue;
+            }
+            if let Some(block) = find_block(std::slice::from_ref(t), name) {
+                let assigned =
+                    std::mem::replace(&mut state.assigned, vec![Default::default()]);
+                block.body.iter().for_each(|x| track_walk(x, &mut state));
+                state.assigned = assigned;
+            }
+        }
+    }
     if let Some(nested) = state.nested_out {
         nested
     } else {
         state.out.into_iter().map(|x| x.to_string()).collect()
     }
+}
+
+/// Finds the block with the given name in a (single) template.
+#[cfg(feature = "multi_template")]
+fn find_block<'x, 'a>(nodes: &'x [ast::Stmt<'a>], name: &str) -> Option<&'x ast::Block<'a>> {
+    for node in nodes {
+        let found = match node {
+            ast::Stmt::Template(stmt) => find_block(&stmt.children, name),
+            ast::Stmt::Block(stmt) => {
+                if stmt.name == name {
+                    Some(&**stmt)
+                } else {
+                    find_block(&stmt.body, name)
+                }
+            }
+            ast::Stmt::ForLoop(stmt) => {
+                find_block(&stmt.body, name).or_else(|| find_block(&stmt.else_body, name))
+            }
+            ast::Stmt::IfCond(stmt) => {
+                find_block(&stmt.true_body, name).or_else(|| find_block(&stmt.false_body, name))
+            }
+            ast::Stmt::WithBlock(stmt) => find_block(&stmt.body, name),
+            ast::Stmt::SetBlock(stmt) => find_block(&stmt.body, name),
+            ast::Stmt::AutoEscape(stmt) => find_block(&stmt.body, name),
+            ast::Stmt::FilterBlock(stmt) => find_block(&stmt.body, name),
+            _ => None,
+        };
+        if found.is_some() {
+            return found;
+        }
+    }
+    None
 }
 
 fn tracker_visit_expr_opt<'a>(expr: &Option<ast::Expr<'a>>, state: &mut AssignmentTracker<'a>) {
@@ -111,7 +170,10 @@ fn tracker_visit_call<'a>(call: &ast::Call<'a>, state: &mut AssignmentTracker<'a
     match call.identify_call() {
         // `self.name()` renders a block: neither `self` nor the arguments are evaluated
         #[cfg(feature = "multi_template")]
-        ast::CallType::Block(_) => return,
+        ast::CallType::Block(name) => {
+            state.called_blocks.push(name);
+            return;
+        }
         // `super()` is resolved by the engine without a variable lookup
         #[cfg(feature = "multi_template")]
         ast::CallType::Function("super") => {}
